@@ -193,7 +193,16 @@ def gen_cases(ctx):
              'geo': {'kind': 'unit_cube' if unit else 'identity'}})
         dist['dims'][d] = dist['dims'].get(d, 0) + 1
     # --- geometry maps -----------------------------------------------------------
-    ngeo = 20 if th else 7
+    # fixed first case (the first ACA call of the driver process, so that rand() in fastasm.cc is
+    # in its initial state): a sheared unit cube, uniform quadratic splines with 4 spans
+    u4 = kv_from([F(0), F(1, 4), F(1, 2), F(3, 4), F(1)], 2, [3, 1, 1, 1, 3])
+    Ash = [[F(1), F(1, 2), F(0)], [F(0), F(1), F(0)], [F(0), F(0), F(1)]]
+    co = [[[[float(ix * Ash[r][0] + iy * Ash[r][1] + iz * Ash[r][2]) for r in range(3)]
+            for ix in range(2)] for iy in range(2)] for iz in range(2)]
+    add({'kind': 'geo', 'spaces': [spec(u4, 2)] * 3, 'which': 'para3', 'stiffness': True, 'fast': 1e-6,
+         'geo': {'kind': 'multilinear', 'coeffs': co, 'A': [[str(v) for v in row] for row in Ash], 'o': ['0', '0', '0']}})
+    dist['geo']['sheared-cube-fixed'] = 1
+    ngeo = 20 if th else 6
     for c in range(ngeo):
         which = ['quad', 'para3', 'quad', 'annulus', 'bannulus', 'twisted', 'quad'][c % 7]
         d = 3 if which in ('para3', 'twisted') else 2
@@ -597,17 +606,23 @@ def check_geo(case, r, bad):
         if abs(int_one - 0.75 * math.pi) > 1e-2 * 0.75 * math.pi:
             bad.append(('geo-area:annulus', 'integrate(1) over the quarter annulus = %r, area %r' % (int_one, 0.75 * math.pi)))
     # low-rank assembler: entrywise within 4*tol (relative to the largest entry)
+    # (a mismatch after the ACA loop gave up with "Skipped n times; stopping" is one class of
+    # failure whatever the geometry: signature ...:skip-stop)
     if 'Mf' in r:
         tol = case['fast']
         Mf = np.load(r['Mf'])
         if np.abs(Mf - M).max() > 4 * tol * max(1.0, np.abs(M).max()):
-            bad.append(('fast-mass:' + which, 'mass_fast differs from mass by %g (tol %g)' % (np.abs(Mf - M).max(), tol)))
+            cls = 'skip-stop' if 'Skipped' in r.get('Mf_log', '') else which
+            bad.append(('fast-mass:' + cls, 'mass_fast differs from mass by %g (tol %g, largest entry %g); log: %r'
+                        % (np.abs(Mf - M).max(), tol, np.abs(M).max(), r.get('Mf_log', '')[-160:])))
     if 'Kf' in r:
         tol = case['fast']
         K = np.load(r['K'])
         Kf = np.load(r['Kf'])
         if np.abs(Kf - K).max() > 4 * tol * max(1.0, np.abs(K).max()):
-            bad.append(('fast-stiffness:' + which, 'stiffness_fast differs from stiffness by %g (tol %g)' % (np.abs(Kf - K).max(), tol)))
+            cls = 'skip-stop' if 'Skipped' in r.get('Kf_log', '') else which
+            bad.append(('fast-stiffness:' + cls, 'stiffness_fast differs from stiffness by %g (tol %g, largest entry %g); log: %r'
+                        % (np.abs(Kf - K).max(), tol, np.abs(K).max(), r.get('Kf_log', '')[-160:])))
 
 
 def check_detinv(case, r, bad):
